@@ -38,31 +38,29 @@ def rmwt(wt):
 
 
 def place_demo(cand, wt):
-    """demo_cmd.txt: free text; we support the convention `copy <file> to <dir>` + a command line.
-    Returns the command to run. Falls back to heuristics."""
+    """demo_cmd.txt is free text. Heuristics: *_test.go files go to the first repo directory named in the text;
+    the command is the first `go test …` (or `sh …`/`bash …`) found. Returns (command, placed files)."""
     txt = open(os.path.join(cand, "demo_cmd.txt")).read()
+    txt = re.sub(r"<repo>|\$REPO|/tmp/mut/wt_C\d+", wt, txt)
     files = [f for f in os.listdir(cand) if f not in ("patch.diff", "meta.json", "demo_cmd.txt")]
+    dest = None
+    for d in re.findall(r"((?:pkg|internal|format|cmd)/[\w/\-.]+)", txt):
+        d = d.rstrip("/.")
+        if d.endswith(".go"):
+            d = os.path.dirname(d)
+        if os.path.isdir(os.path.join(wt, d)):
+            dest = d
+            break
     placed = []
     for f in files:
-        # find a destination directory mentioned in the text
-        m = re.search(r"(?:to|into|in)\s+`?((?:/tmp/\S+?/)?(?:pkg|internal|format|cmd)[\w/\-.]*)`?", txt)
-        dest = None
-        for cand_dir in re.findall(r"((?:pkg|internal|format)/[\w/\-]+)", txt):
-            if os.path.isdir(os.path.join(wt, cand_dir)):
-                dest = cand_dir
-                break
         if f.endswith("_test.go") and dest:
             shutil.copy(os.path.join(cand, f), os.path.join(wt, dest, f))
             placed.append(os.path.join(dest, f))
         else:
             shutil.copy(os.path.join(cand, f), os.path.join(wt, f))
             placed.append(f)
-    cmds = re.findall(r"`([^`]*(?:go test|\.sh|go run)[^`]*)`", txt) or \
-        [l.strip() for l in txt.splitlines() if re.search(r"go test|\.sh|go run", l)]
-    cmd = cmds[-1] if cmds else None
-    if cmd:
-        cmd = re.sub(r"/tmp/mut/wt_C\d+", wt, cmd)
-        cmd = re.sub(r"^cd \S+ && ", "", cmd)
+    m = re.search(r"(go test [^\n(`]*)", txt) or re.search(r"((?:sh|bash) [^\n(`]*)", txt)
+    cmd = m.group(1).strip() if m else None
     return cmd, placed
 
 
